@@ -141,7 +141,8 @@ def main():
 def replay_file(prop, path):
     data = json.load(open(path))
     if data.get('kind') == 'scenario':
-        out = run_native(['-m', 'bounded.' + prop.lower(), '--replay', path])
+        info = P.PROPS[prop]
+        out = run_native(['-m', data.get('driver') or info['driver']] + list(info.get('driver_args', [])) + ['--replay', path])
     else:
         args = ['-m', 'bounded.native', '--contract', data['contract'], '--replay', path]
         if data.get('instance'):
@@ -287,7 +288,7 @@ def run_check(prop, tier, seed, a, t0):
     # ---------------- bounded stand-in: scenario driver ---------------------------------------------
     scenario = None
     if info.get('driver'):
-        out = run_native(['-m', info['driver'], '--tier', tier, '--seed', str(seed), '--out', replay_dir],
+        out = run_native(['-m', info['driver']] + list(info.get('driver_args', [])) + ['--tier', tier, '--seed', str(seed), '--out', replay_dir],
                          timeout=info.get('driver_timeout', {}).get(tier, 1500 if tier == 'quick' else 7200))
         scenario = out
         if out.get('status') == 'error':
